@@ -94,6 +94,14 @@ func (m *Mon) OnLeg(n *node.Node, l *node.Leg) {
 	if m.Enabled["C13"] && l.InputMut != "" {
 		m.viol("C13", "input-modified:"+l.Call.Func, "the call modified its input: "+l.InputMut, l)
 	}
+	if l.Aborted {
+		// an injected dependency fault failed the call: rolled back, to be processed again
+		m.R.Cover("walk/fault-aborted-legs")
+		return
+	}
+	if l.FaultFired && l.OK {
+		m.R.Cover("walk/fault-fired-but-call-succeeded")
+	}
 	if l.OK {
 		if m.Enabled["C01"] {
 			m.C01(n, l)
